@@ -341,6 +341,18 @@ pub fn check_twin(d: &Driver, out: &mut Vec<Violation>) {
         if a != b {
             out.push(v("twin:scan-size", format!("scan guard sizes blob tree {a:?} vs standard tree {b:?}")));
         }
+        // conditional guards (value resolved only for accepted keys), keys-only guards, both directions
+        let first = d.cfg.keys[0].clone();
+        let a: Vec<_> = d.t().iter(sa, None).rev().map(|g| g.into_inner_if(|k| **k == *first).map(|(k, x)| (k.to_vec(), x.map(|x| x.to_vec()))).map_err(|e| format!("{e:?}"))).collect();
+        let b: Vec<_> = tw.t().iter(sb, None).rev().map(|g| g.into_inner_if(|k| **k == *first).map(|(k, x)| (k.to_vec(), x.map(|x| x.to_vec()))).map_err(|e| format!("{e:?}"))).collect();
+        if a != b {
+            out.push(v("twin:scan-inner-if", format!("reverse scan with into_inner_if(first key) blob tree {a:?} vs standard tree {b:?}")));
+        }
+        let a: Vec<_> = d.t().iter(sa, None).map(|g| g.key().map(|k| k.to_vec()).map_err(|e| format!("{e:?}"))).collect();
+        let b: Vec<_> = tw.t().iter(sb, None).map(|g| g.key().map(|k| k.to_vec()).map_err(|e| format!("{e:?}"))).collect();
+        if a != b {
+            out.push(v("twin:scan-keys", format!("scan guard keys blob tree {a:?} vs standard tree {b:?}")));
+        }
     }
     drop(tw);
     let _ = std::fs::remove_dir_all(&twin_dir);
